@@ -123,6 +123,7 @@ impl Prop for C14 {
     }
     fn check(c: &Case, ctx: &mut Ctx) -> CheckResult {
         let b0 = &c.base.b;
+        crate::common::label_long(ctx, b0);
         let inc = increment(c);
         let b1 = add_line(b0, Line { id: c.id, kind: Kind::Prod { src: Src::EL_INSITU }, vals: inc.clone(), comment: String::new() });
         let i0 = inputs(b0, &c.base.f)?;
